@@ -12,7 +12,7 @@ if ! git -C $WT apply "$D" 2>/dev/null; then
 fi
 rsync -a --exclude .git --exclude 'replay/*.json' /verif/ $VC/
 for id in $IDS; do
-  (cd $VC && VERIF_REPO=$WT ./check $id 2>&1 | grep -E "VIOLATION|KNOWN|^\[|^  " | head -8)
+  (cd $VC && VERIF_REPO=$WT ./check $id > check_$id.out 2>&1; grep -E "VIOLATION|KNOWN|^  " check_$id.out | head -7; grep -E "^\[" check_$id.out | tail -1)
 done
 mkdir -p /verif/build/mutant_replays && cp $VC/replay/*.json /verif/build/mutant_replays/ 2>/dev/null
 rm -rf $VC
